@@ -81,6 +81,26 @@ def gen_program(rnd):
                 lines.append("r%d = 0" % nres)
                 kinds.add("write-const-index")
         nres += 1
+    if not two_d and rnd.random() < 0.4:
+        # whole-array operations: arithmetic, selection between arrays, equality assertion
+        kinds.add("array-arithmetic")
+        lines.append("A2 = Array([%s])" % ", ".join(elem() for _ in range(shape[0])))
+        cnd = inp(rnd.randint(0, 1), "PrivValBool")
+        lines.append("S = A + A2")
+        lines.append("D = A - A2")
+        lines.append("M = %s * A + %d" % (inp(rnd.randint(-3, 3)), rnd.randint(0, 3)))
+        lines.append("T = if_then_else(%s, A, A2)" % cnd)
+        lines.append("T.assert_eq(if_then_else(%s, A, A2))" % cnd)
+        lines.append("r%d = S[%s] + D[0] * 2 + M[%d] + T[%s] + 0" % (nres, index(0), shape[0] - 1, index(0)))
+        nres += 1
+    if two_d and rnd.random() < 0.4:
+        kinds.add("row-view")
+        lines.append("row = A[%s]" % index(0))
+        lines.append("r%d = row[%d] + sum(A.joined()) * 0 + 0" % (nres, rnd.randint(0, shape[1] - 1)))
+        nres += 1
+        lines.append("try:\n    row[0] = 5\n    chained = 0\nexcept TypeError:\n    chained = 1")
+        lines.append("r%d = chained" % nres)
+        nres += 1
     if not two_d and rnd.random() < 0.35:
         # the list an Array was built from, and a second Array built from the same list, stay independent
         kinds.add("aliasing")
